@@ -440,6 +440,10 @@ func (e *Engine) stdStub(full string, c *ast.CallExpr, recv *Value, args []Value
 		e.assume(st.pc, forallK(func(k string) string {
 			return fmt.Sprintf("(! %s :pattern (%s))", implies(and(e.le(e.izero(), k), e.lt(k, ite(e.lt(r, e.izero()), ln, r))), not(eq(at(k), cb))), at(k))
 		}))
+		// the same fact over absolute positions of the backing array (matches reads made through another slice of it)
+		e.assume(st.pc, forallK(func(k string) string {
+			return fmt.Sprintf("(! %s :pattern (%s))", implies(and(e.le(off, k), e.lt(k, e.add(off, ite(e.lt(r, e.izero()), ln, r)))), not(eq(sx("select", arr, k), cb))), sx("select", arr, k))
+		}))
 		return []Value{{r, it}}, true
 	case "bytes.HasPrefix", "strings.HasPrefix", "bytes.HasSuffix", "strings.HasSuffix", "bytes.Equal":
 		note(full + ": exact (length and bytes)")
@@ -468,9 +472,10 @@ func (e *Engine) stdStub(full string, c *ast.CallExpr, recv *Value, args []Value
 			}
 			body = and(cs...)
 		} else {
-			body = forallK(func(k string) string {
-				return implies(and(e.le(e.izero(), k), e.lt(k, l2)), eq(sx("select", a1, e.add(e.add(o1, start), k)), sx("select", a2, e.add(o2, k))))
-			})
+			// a fixed bound-variable name: two comparisons of the same operands are then the same formula syntactically
+			k := "k!beq"
+			body = fmt.Sprintf("(forall ((%s %s)) %s)", k, e.isort(),
+				implies(and(e.le(e.izero(), k), e.lt(k, l2)), eq(sx("select", a1, e.add(e.add(o1, start), k)), sx("select", a2, e.add(o2, k)))))
 		}
 		return []Value{{and(lenc, body), types.Typ[types.Bool]}}, true
 	case "bytes.Index", "strings.Index", "bytes.LastIndex", "strings.LastIndex", "strings.LastIndexByte", "bytes.LastIndexByte", "strings.IndexAny", "bytes.IndexAny", "strings.LastIndexAny", "strings.IndexRune", "bytes.IndexRune", "strings.IndexFunc", "bytes.IndexFunc":
